@@ -2,6 +2,7 @@ import AlgoVerif.Lemmas.VpackMain
 import AlgoVerif.Lemmas.VpackSafe
 import AlgoVerif.Lemmas.VpackInit
 import AlgoVerif.Lemmas.VpackE2E
+import AlgoVerif.Lemmas.VpackInjective
 /-!
 C42 — Vote compression is lossless and stays in sync.
 
@@ -17,9 +18,12 @@ Which inputs the theorems cover:
     or the round is in a wider format, `Decompress` re-emits 0 / the minimal width, so bytes differ (tables still agree);
     `parseMsgpVote` (after the two repairs d5b955e999, 3fc433ce52) never produces such input.
   * stateless layer (`stateless_roundtrip`): every canonical msgpack vote `msgpack m`, `m.WF` (keys in ascending order,
-    omitempty, integers in minimal width — what protocol.Encode produces). Outside: `statelessCompress` is proved to
-    ACCEPT all of these; that it REJECTS everything it cannot round-trip is the statement `StatelessInjectiveStatement`,
-    not proved here (checked on the implementation by the hard monitor of checks/C42.py on mutated inputs).
+    omitempty, integers in minimal width — what protocol.Encode produces). Outside: `stateless_injective` — for EVERY byte
+    string, `statelessCompress` either errs or its output decompresses to exactly that byte string; `stateless_accepts_only_canonical`
+    says the accepted inputs are precisely the canonical layouts (this needs the key-order and minimal-integer checks of the
+    two repairs: without either one the statement is false, see corpus/C42/*.ops).
+  * whole path (`vote_compression_lossless_sync_any`): no assumption on the vote bytes at all — every byte string the
+    stateless encoder accepts travels through both layers losslessly and in sync.
 -/
 namespace Props.C42
 open AlgoVerif.Model.Vpack AlgoVerif.Spec.Vpack AlgoVerif.Lemmas.Vpack
@@ -134,12 +138,36 @@ theorem stateless_roundtrip (m : MVote) (hw : m.WF) :
     statelessCompress (msgpack m) = .ok m.sl ∧ statelessDecompress m.sl = .ok (msgpack m) :=
   ⟨compress_canonical m hw, decompress_canonical m hw⟩
 
-/-- NOT PROVED (statement kept visible). What the two repairs in parse.go / msgp.go are meant to establish:
-    `CompressVote` returns an error for every input it cannot round-trip. Its canonical-input half is
-    `stateless_roundtrip`; the rejection half is checked on the implementation by the hard monitor of
-    checks/C42.py (valid, truncated, flipped, extended, key-permuted and width-changed msgpack). -/
+/-- `CompressVote` rejects everything it cannot round-trip. -/
 def StatelessInjectiveStatement : Prop :=
   ∀ (b sl : Bytes), statelessCompress b = .ok sl → statelessDecompress sl = .ok b
+
+/-- FULL, no hypotheses. For EVERY byte string `b`: if `CompressVote b` returns no error, `DecompressVote` of its output
+    is exactly `b`. (Inversion of `parseMsgpVote`: every read primitive, both key loops with the strict-order check,
+    and the minimal-width check of `readUintBytes`.) -/
+theorem stateless_injective : StatelessInjectiveStatement :=
+  fun b sl h => AlgoVerif.Lemmas.Vpack.stateless_injective b sl h
+
+/-- FULL. The inputs `CompressVote` accepts are exactly the canonical msgpack layouts of well-formed votes, and its
+    output is then a well-formed stateless vote (second header byte 0, minimal round width): the hypothesis of the
+    stateful theorems is GUARANTEED by the stateless layer, not assumed. -/
+theorem stateless_accepts_only_canonical (b sl : Bytes) (h : statelessCompress b = .ok sl) :
+    ∃ m : MVote, m.WF ∧ b = msgpack m ∧ sl = ser m.toSVote ∧ m.toSVote.WF := by
+  have h0 := h
+  unfold statelessCompress at h
+  split at h
+  · cases h
+  · rename_i pz hp
+    split at h
+    · cases h
+    · split at h
+      · cases h
+      · rename_i hreq
+        obtain ⟨m, hw, hb⟩ := parse_inv b pz hp (Classical.byContradiction (fun hh => hreq hh))
+        subst hb
+        rw [compress_canonical m hw] at h0
+        cases h0
+        exact ⟨m, hw, rfl, sl_eq_ser m, toSVote_wf m hw⟩
 
 /-- FULL. End to end: for every sequence of well-formed canonical votes on a connection whose two ends start from
     the same table state, each vote is stateless-compressed to `m.sl`, the stateful session delivers exactly
@@ -159,6 +187,31 @@ theorem vote_compression_lossless_sync (votes : List MVote) (st : TableState) (h
     intro v hvm
     obtain ⟨m, hm, rfl⟩ := List.mem_map.mp hvm
     exact toSVote_wf m (hv m hm)
+
+/-- FULL, no assumption on the vote bytes. For every sequence of (input, stateless output) pairs that `CompressVote`
+    produced — whatever the input bytes were — and two ends starting from the same table state: the stateful session
+    delivers every stateless vote byte-exact, the table states are equal after every vote (evictions, MRU flips and
+    window wrap-around included: the state is arbitrary within `WF`), no step errs, and `DecompressVote` of what
+    was delivered is the original input. -/
+theorem vote_compression_lossless_sync_any (inputs : List (Bytes × Bytes)) (st : TableState) (hwf : WF st)
+    (h : ∀ x ∈ inputs, statelessCompress x.1 = .ok x.2) :
+    ∃ votes : List SVote, votes.map ser = inputs.map (·.2) ∧
+      InSync votes (session st st (inputs.map (·.2))) ∧ ∀ x ∈ inputs, statelessDecompress x.2 = .ok x.1 := by
+  have hex : ∃ votes : List SVote, votes.map ser = inputs.map (·.2) ∧ ∀ v ∈ votes, v.WF := by
+    induction inputs with
+    | nil => exact ⟨[], rfl, by simp⟩
+    | cons x xs ih =>
+      obtain ⟨vs, e1, e2⟩ := ih (fun y hy => h y (by simp [hy]))
+      obtain ⟨m, _, _, hsl, hsv⟩ := stateless_accepts_only_canonical x.1 x.2 (h x (by simp))
+      refine ⟨m.toSVote :: vs, by simp [List.map_cons, e1, hsl], ?_⟩
+      intro v hv
+      rcases List.mem_cons.mp hv with rfl | hv
+      · exact hsv
+      · exact e2 v hv
+  obtain ⟨votes, e1, e2⟩ := hex
+  refine ⟨votes, e1, ?_, fun x hx => stateless_injective x.1 x.2 (h x hx)⟩
+  rw [← e1]
+  exact stateful_roundtrip_sync votes st hwf e2
 
 /-! ### the hypotheses are satisfiable -/
 
@@ -180,15 +233,24 @@ example : ∃ s, TableState.init 16 = some s ∧ WF s := by
 example : ∃ t, newLRUTable 16 (zeros 32) = some t ∧ ∃ id t', t.lookup (zeros 32) 0 = .ok (some id, t') := by
   refine ⟨_, rfl, 0, _, rfl⟩
 
-/-- a canonical vote with period, a full proposal and step -/
+/-- a canonical vote with ALL optional fields: period, full proposal (dig, encdig, oper, oprop) and step -/
 def sampleMVote : MVote :=
   { pf := zeros 80, per := some 300, dig := some (zeros 32), encdig := some (zeros 32), oper := some 1,
     oprop := some (zeros 32), rnd := 70000, snd := zeros 32, step := some 2, p := zeros 32, p1s := zeros 64,
     p2 := zeros 32, p2s := zeros 64, s := zeros 64 }
 
-example : sampleMVote.WF :=
+theorem sampleMVote_wf : sampleMVote.WF :=
   { pf := rfl, per := fun x h => by cases h; decide, dig := fun x h => by cases h; rfl,
     encdig := fun x h => by cases h; rfl, oper := fun x h => by cases h; decide, oprop := fun x h => by cases h; rfl,
     rnd := by decide, snd := rfl, step := fun x h => by cases h; decide, p := rfl, p1s := rfl, p2 := rfl, p2s := rfl, s := rfl }
+
+/-- the premise of `stateless_injective` / `stateless_accepts_only_canonical` is met by a concrete vote carrying every
+    optional field: `CompressVote` accepts its msgpack bytes -/
+example : ∃ sl, statelessCompress (msgpack sampleMVote) = .ok sl ∧ statelessDecompress sl = .ok (msgpack sampleMVote) :=
+  ⟨sampleMVote.sl, (stateless_roundtrip sampleMVote sampleMVote_wf).1,
+    stateless_injective _ _ (stateless_roundtrip sampleMVote sampleMVote_wf).1⟩
+
+/-- … and a non-canonical input (the `r` map announces 0 entries) is rejected, so the premise is not always true -/
+example : ∃ e, statelessCompress [0x83, 0xa4, 0x63, 0x72, 0x65, 0x64, 0x80] = .error e := ⟨_, rfl⟩
 
 end Props.C42
